@@ -5,6 +5,7 @@ package main
 
 import (
 	"fmt"
+	"go/types"
 	"math/big"
 	"regexp"
 	"sort"
@@ -123,6 +124,24 @@ func reduce(l Lin, eqs []Lin) Lin {
 	if len(eqs) == 0 || l.IsZero() {
 		return l
 	}
+	// equations also hold scaled by any power of ten that occurs in l
+	tagSets := map[string][]string{}
+	for a := range l.T {
+		if tags, _ := stripTags(a); len(tags) > 0 {
+			tagSets[strings.Join(tags, "")] = tags
+		}
+	}
+	if len(tagSets) > 0 {
+		ext := append([]Lin(nil), eqs...)
+		for _, tags := range tagSets {
+			for _, e := range eqs {
+				if e.C.Sign() == 0 {
+					ext = append(ext, applyTags(e, tags))
+				}
+			}
+		}
+		eqs = ext
+	}
 	// triangularise
 	var piv []string
 	var rows []Lin
@@ -137,7 +156,14 @@ func reduce(l Lin, eqs []Lin) Lin {
 		if len(as) == 0 {
 			continue
 		}
+		// eliminate ordinary atoms first: loop symbols must stay visible for the accumulator rule
 		p := as[0]
+		for _, a := range as {
+			if _, base := stripTags(a); !isLoopAtom(base) {
+				p = a
+				break
+			}
+		}
 		// normalise pivot to 1
 		inv := new(big.Rat).Inv(r.T[p])
 		r = scaleLin(r, inv)
@@ -422,4 +448,27 @@ func uniqStrings(in []string) []string {
 		}
 	}
 	return out
+}
+
+// methodOf finds the SSA function of a (possibly pointer-receiver) method of a named type.
+func methodOf(m *Model, t *types.Named, name string) *ssa.Function {
+	for _, recv := range []types.Type{t, types.NewPointer(t)} {
+		sel := m.P.SSA.MethodSets.MethodSet(recv).Lookup(t.Obj().Pkg(), name)
+		if sel == nil {
+			continue
+		}
+		fn := m.P.SSA.MethodValue(sel)
+		if fn == nil {
+			continue
+		}
+		if fn.Synthetic != "" {
+			for _, ci := range callsIn(fn) {
+				if sc := ci.Common().StaticCallee(); sc != nil && sc.Name() == name {
+					return sc
+				}
+			}
+		}
+		return fn
+	}
+	return nil
 }
